@@ -82,11 +82,7 @@ class SkBaseTransformStacking(SkBaseTransform):
             "converting function into a transform"
             m, me = c
             if isinstance(m, SkBaseTransformLearner):
-                if me == m.method:
-                    return m
-                res = SkBaseTransformLearner(m.model, me)
-                new_learners.append(res)
-                return res
+                return m
             if hasattr(m, "transform"):
                 return m
             res = SkBaseTransformLearner(m, me)
